@@ -180,9 +180,50 @@ fn with_format(c: &c02::Case, format: Format) -> c02::Case {
     c
 }
 
+/// C10, single surfaces: tag 10, args [fmt; W; H; colour; extra row pitch; parallel] observed [code; bytes written]
+/// (code 0 ok, 4 invalid size, 6 unsupported format, 9 other, -2 panic)
+pub fn single_surface(out: &mut Out, fmt: usize, w: u32, h: u32, color: usize, extra: usize, parallel: bool, rng: &mut Rng) {
+    let (format, _) = FORMATS[fmt];
+    let cf = COLORS[color];
+    let bpp = cf.bytes_per_pixel() as usize;
+    let pitch = w as usize * bpp + extra * bpp;
+    let len = if h == 0 { 0 } else { pitch * (h as usize - 1) + w as usize * bpp };
+    let data: Vec<u8> = (0..len).map(|_| (rng.next() >> 7) as u8 & 0x3f).collect();   // small values: finite floats
+    let Some(view) = ImageView::new_with(&data[..len], pitch, Size::new(w, h), cf) else { return; };
+    let mut opts = EncodeOptions::default();
+    opts.parallel = parallel;
+    opts.quality = CompressionQuality::Fast;
+    let mut sink: Vec<u8> = Vec::new();
+    let r = catch(|| encode(&mut sink, view, format, None, &opts));
+    let code: i128 = match &r { None => -2, Some(Ok(())) => 0, Some(Err(EncodingError::InvalidSize(..))) => 4, Some(Err(EncodingError::UnsupportedFormat(_))) => 6, Some(Err(_)) => 9 };
+    if code == -2 { println!("IMPL-VIOLATION panic in encode: fmt {fmt} {w}x{h} colour {color} extra pitch {extra}"); }
+    if code == 0 {
+        // the bytes must decode again as a surface of that size
+        let mut buf = vec![0u8; w as usize * h as usize * 4];
+        let mut rd = &sink[..];
+        let d = decode(&mut rd, ImageViewMut::new(&mut buf, Size::new(w, h), ColorFormat::RGBA_U8).unwrap(), format, &DecodeOptions::default());
+        if d.is_err() || !rd.is_empty() { println!("IMPL-VIOLATION encoded surface does not decode / trailing bytes: fmt {fmt} {w}x{h}"); }
+    }
+    out.count(if code == 0 { "single_ok" } else { "single_refused" });
+    out.case(10, &[fmt as i128, w as i128, h as i128, color as i128, extra as i128, parallel as i128], &[code, if code == 0 { sink.len() as i128 } else { 0 }]);
+}
 pub fn run(out: &mut Out, tier: &str, seed: u64, corpus: Option<&str>, prop: &str) {
     let thorough = tier == "thorough";
     let mut rng = Rng::new(seed ^ 0xC11);
+    if prop == "C10" && tier != "replay" {
+        // single surfaces: all formats x sizes incl. widths crossing the 512-pixel / 4096-byte staging buffers x row pitch
+        let widths: [u32; 14] = [1, 2, 3, 4, 5, 7, 16, 33, 255, 513, 600, 1025, 1100, 4100];
+        for fi in 0..FORMATS.len() {
+            let n = if thorough { 60 } else { 8 };
+            for k in 0..n {
+                let w = if k % 2 == 0 { *rng.pick(&widths) } else { rng.range(1, 70) as u32 };
+                let h = if w > 300 { rng.range(1, 4) as u32 } else { rng.range(1, 40) as u32 };
+                let color = rng.below(12) as usize;
+                let extra = *rng.pick(&[0usize, 0, 1, 3, 17]);
+                single_surface(out, fi, w, h, color, extra, rng.chance(1, 3), &mut rng);
+            }
+        }
+    }
     if let Some(p) = corpus {
         if let Ok(s) = std::fs::read_to_string(p) {
             for l in s.lines() {
